@@ -160,7 +160,22 @@ pub trait OperandHandler {
                 ident_provider,
                 ident_kind,
             );
+        } else if is_literal_only_sum(operand) {
+            // a constant sub-sum ('a' + 'b') is an operand like any other literal: evaluating it
+            // again is unobservable, so it is handed to the hook as it is, without a temporary
+            arguments.push(ident_provider.get_expr_or_spread(operand, ident_kind));
         }
+    }
+}
+
+pub fn is_literal_only_sum(expr: &Expr) -> bool {
+    match expr {
+        Expr::Lit(_) => true,
+        Expr::Paren(paren) => is_literal_only_sum(&paren.expr),
+        Expr::Bin(binary) if binary.op == BinaryOp::Add => {
+            is_literal_only_sum(&binary.left) && is_literal_only_sum(&binary.right)
+        }
+        _ => false,
     }
 }
 
